@@ -549,6 +549,27 @@ class Tokenizer:
 
         return self.as_string(self.get().unescape(), max_length)
 
+    def get_string_as_bytes(self, max_length: int | None = None) -> bytes:
+        """Read the next token and interpret it as a string of octets.
+
+        Unlike :py:meth:`get_string`, a ``\\DDD`` escape denotes the octet DDD (RFC 1035
+        section 5.1), not the Unicode code point DDD, so that character-strings
+        containing octets >= 128 survive a to_text() / from_text() round trip.
+
+        Raises dns.exception.SyntaxError if not a string.
+        Raises dns.exception.SyntaxError if the length in octets
+        exceeds max_length (if specified).
+
+        Returns a bytes.
+        """
+
+        token = self.get().unescape_to_bytes()
+        if not (token.is_identifier() or token.is_quoted_string()):
+            raise dns.exception.SyntaxError("expecting a string")
+        if max_length and len(token.value) > max_length:
+            raise dns.exception.SyntaxError("string too long")
+        return token.value
+
     def get_identifier(self) -> str:
         """Read the next token, which should be an identifier.
 
